@@ -247,6 +247,87 @@ func runC13(r *Run) {
 		}
 	}
 
+	// ---- results fed back as inputs: a value returned by one evaluation is bound in the environment of the next ones;
+	// later evaluations must neither change it nor differ from evaluations over an independent copy of it ----
+	{
+		var deepCopy func(v *val.Val) *val.Val
+		deepCopy = func(v *val.Val) *val.Val {
+			switch v.Type.Kind {
+			case types.KList:
+				vs := make([]*val.Val, len(v.List().V))
+				for i, e := range v.List().V {
+					vs[i] = deepCopy(e)
+				}
+				return mkList(v.Type.List().El, vs...)
+			case types.KNum:
+				return val.Num(v.Num().V)
+			case types.KStr:
+				return val.Str(v.Str().V)
+			}
+			return v
+		}
+		lvars := []envVar{{"xs", tlist(tnum())}, {"ys", tlist(tnum())}, {"x", tnum()}}
+		evalOn := func(be, src string, xs, ys *val.Val) (*val.Val, string) {
+			var v *val.Val
+			var err error
+			mark(fmt.Sprintf("fed-back result: %q on %s", src, be))
+			pan, msg := protect(func() {
+				cl, cerr := newExpr(be, &traceLog{}, false).Compile(src, typeEnvOf(lvars))
+				if cerr != nil {
+					err = cerr
+					return
+				}
+				ve := val.NewEnv()
+				ve.Put("xs", xs)
+				ve.Put("ys", ys)
+				ve.Put("x", val.Num(7))
+				v, err = cl(ve)
+			})
+			switch {
+			case pan:
+				return nil, "panic " + firstLine(msg)
+			case err != nil:
+				return nil, "error"
+			}
+			return v, v.String()
+		}
+		firsts := []string{`union(xs, [9])`, `union(xs, ys)`, `diff(xs, [2])`, `intersect(xs, ys)`, `union(union(xs, [5]), [6])`, `get([xs], 0, ys)`, `[x, x + 1]`, `union([x], xs)`}
+		seconds := []string{`[union(xs, [100]), union(xs, [200])]`, `string([union(xs, [8]), xs, union(xs, [9])])`, `[union(xs, [x]), diff(xs, [x]), intersect(xs, xs)]`, `union(xs, [100])`, `union(xs, [200, 300])`, `len(union(xs, ys)) + len(xs)`}
+		for _, be := range backends {
+			for _, p1 := range firsts {
+				x0 := mkList(types.Num, val.Num(1), val.Num(2), val.Num(3), val.Num(4))
+				y0 := mkList(types.Num, val.Num(3), val.Num(50))
+				r1, s1 := evalOn(be, p1, x0, y0)
+				if r1 == nil || r1.Type.Kind != types.KList {
+					continue
+				}
+				var kept []*val.Val
+				var keptS []string
+				for _, p2 := range seconds {
+					got, gs := evalOn(be, p2, r1, y0)
+					_, ws := evalOn(be, p2, deepCopy(r1), deepCopy(y0))
+					r.Count("fed-back result evaluations")
+					if gs != ws {
+						r.Violate("result-depends-on-value-identity", fmt.Sprintf("%q on %s with xs := the result of %q", p2, be, p1), fmt.Sprintf("got %s, over an independent copy of the same list %s", gs, ws))
+					}
+					if got != nil {
+						kept, keptS = append(kept, got), append(keptS, gs)
+					}
+					if now := r1.String(); now != s1 {
+						r.Violate("earlier-result-changed-by-later-evaluation", fmt.Sprintf("result of %q on %s after evaluating %q over it", p1, be, p2), fmt.Sprintf("was %s, now %s", s1, now))
+						s1 = now
+					}
+					for i, k := range kept {
+						if now := k.String(); now != keptS[i] {
+							r.Violate("earlier-result-changed-by-later-evaluation", fmt.Sprintf("a result obtained on %s with xs := the result of %q, after evaluating %q", be, p1, p2), fmt.Sprintf("was %s, now %s", keptS[i], now))
+							keptS[i] = now
+						}
+					}
+				}
+			}
+		}
+	}
+
 	// ---- host values are not modified ----
 	type inner struct {
 		P float64 `yae:"p"`
